@@ -3,7 +3,7 @@ from .. import lib, runner, muxsim
 
 PROP = "C04"
 THEOREMS = ["Mux.r_stb_exact", "Mux.r_data_zero_initially", "Mux.r_data_zero_unless", "Mux.read_is_snapshot", "Mux.sharing_unobservable_read", "Mux.unmapped_read_zero", "Mux.encode_decode"]
-IMPORTS = ["SocVerif"]
+IMPORTS = ["SocVerif.Props.C04"]
 
 
 def nontrivial(r):
